@@ -34,6 +34,10 @@ func (ks keySchema) getKeyValue(attrs map[string]string, item map[string]*types.
 		return "", err
 	}
 
+	if err := ks.checkNotEmpty(val, ks.HashKey); err != nil {
+		return "", err
+	}
+
 	hashKeyStr := renderKeyPart(val, attrs[ks.HashKey])
 
 	if ks.RangeKey == "" {
@@ -47,9 +51,34 @@ func (ks keySchema) getKeyValue(attrs map[string]string, item map[string]*types.
 		return "", err
 	}
 
+	if err := ks.checkNotEmpty(val, ks.RangeKey); err != nil {
+		return "", err
+	}
+
 	key = append(key, renderKeyPart(val, attrs[ks.RangeKey]))
 
 	return strings.Join(key, "."), nil
+}
+
+// checkNotEmpty refuses an empty string or an empty binary as a primary key attribute value
+// (an item stored under such a key could not be told from "no key" by the pagination code)
+func (ks keySchema) checkNotEmpty(val interface{}, field string) error {
+	if ks.Secondary {
+		return nil
+	}
+
+	switch v := val.(type) {
+	case string:
+		if v == "" {
+			return fmt.Errorf("%w; field %q: a key attribute cannot contain an empty string value", ErrInvalidAtrributeValue, field)
+		}
+	case []byte:
+		if len(v) == 0 {
+			return fmt.Errorf("%w; field %q: a key attribute cannot contain an empty binary value", ErrInvalidAtrributeValue, field)
+		}
+	}
+
+	return nil
 }
 
 // renderKeyPart renders a key attribute value so that equal values have equal renderings and
